@@ -58,7 +58,7 @@ def render_file(rng, lines):
         if kind == "blank":
             out.append(rng.choice(["", "   ", "\t"]))
         elif kind == "comment":
-            out.append(rng.choice(["# comment", "; comment = not an assignment", "#[notasection]", ";"]))
+            out.append(rng.choice(["", "", " ", "\t", "    "]) + rng.choice(["# comment", "; comment = not an assignment", "#[notasection]", ";", "# key = 5", ";key=value ; again"]))
         elif kind == "section":
             name = SEC_NAMES[ln[1]]
             out.append(rng.choice(["[%s]", "  [%s]", "[%s]  ", "[ %s ]", "\t[%s]\t"]) % name)
